@@ -529,6 +529,8 @@ func raceBodies(reps int) {
 	scs = append(scs, scenario{"8 x P.Apply(docObj) [cold]", []int{all[0], all[0], all[0], all[0], all[0], all[0], all[0], all[0]}, false},
 		scenario{"all bodies at once [cold]", all, false},
 		scenario{"ProotS noescape | ProotS default | ProotS noescape", []int{callIndex(w, "ProotS.ApplyWithOptions(docS, noescape) [root replaced]"), callIndex(w, "ProotS.Apply(docS) [root replaced]"), callIndex(w, "ProotS.ApplyWithOptions(docS, noescape) [root replaced]")}, false},
+		scenario{"ApplyIndent with > 1 KiB results x 3 | small ApplyIndent x 2", []int{callIndex(w, "PbigS.ApplyIndent(wideDoc) [result > 1 KiB]"), callIndex(w, "Ps.ApplyIndent(docS)"),
+			callIndex(w, "PbigS.ApplyIndentWithOptions(wideDoc, tab) [result > 1 KiB]"), callIndex(w, "Ps.ApplyIndent(docS)"), callIndex(w, "PbigS.ApplyIndent(wideDoc) [result > 1 KiB]")}, false},
 		scenario{"CreateMergePatch big ok | big malformed | big ok", []int{callIndex(w, "CreateMergePatch(bigA,bigB) [5 KB documents]"), callIndex(w, "CreateMergePatch(bigBad,bigB) [5 KB, first malformed]"), callIndex(w, "CreateMergePatch(bigA,bigB) [5 KB documents]")}, false},
 		scenario{"legacy Apply | legacy Apply | legacy MergePatch", []int{callIndex(w, "legacy Lp.Apply(docObj)"), callIndex(w, "legacy Lp.Apply(docObj)"), callIndex(w, "legacy MergePatch(docObj,mp1)")}, false})
 	mism := 0
